@@ -473,6 +473,162 @@ def stored_params(src, ci):
     return stored, params
 
 
+
+# ------------------------------------------------------------------------------------------ unit conversion table
+def unit_table_rule(chk, src):
+    """Quantity: value_au = value / ratio[unit] with ratio[unit] = (unit per a.u.).  Constants of utils/constant.py are named <from>2<to> (1 <from> = x <to>), so every
+    table entry must be au2<unit> (times a power of ten for a prefixed unit) or 1 / <unit>2au; reciprocal constants must be defined as reciprocals of each other"""
+    import re
+    Q = "renormalizer/utils/quantity.py"
+    CST = "renormalizer/utils/constant.py"
+    qm, cm_ = src.module(Q), src.module(CST)
+    table = [n for n in qm.body if isinstance(n, ast.Assign) and unparse(n.targets[0]) == "au_ratio_dict" and isinstance(n.value, ast.Dict)]
+    if len(table) != 1:
+        raise AnalysisError(f"{Q}: au_ratio_dict literal not found")
+    UNIT = {"mev": ("ev", 3), "ev": ("ev", 0), "cm^{-1}": ("cm", 0), "cm-1": ("cm", 0), "k": ("K", 0), "fs": ("fs", 0), "a.u.": (None, 0), "au": (None, 0)}
+    for k, v in zip(table[0].value.keys, table[0].value.values):
+        key = k.value
+        base, power = UNIT.get(key.lower(), ("?", 0))
+        if base == "?":
+            raise AnalysisError(f"{Q}: unit {key!r} is not classified in rules/C16.py")
+        t = unparse(v).replace(" ", "")
+        if base is None:
+            ok, want = t in ("1", "1.0"), "1"
+        else:
+            forms = {f"constant.au2{base}": 0, f"1/constant.{base}2au": 0, f"1.0/constant.{base}2au": 0}
+            m = re.fullmatch(r"(.*?)\*(1e\d+|1000(?:\.0)?|10\*\*\d+)", t)
+            mult = 0
+            core = t
+            if m:
+                core = m.group(1)
+                lit = m.group(2)
+                mult = 3 if lit.startswith("1000") else int(lit.split("e")[1]) if "e" in lit else int(lit.split("**")[1])
+            ok = core.lower() in {f.lower() for f in forms} and mult == power
+            want = f"constant.au2{base}" + (f" * 1e{power}" if power else "") + f"  (or 1 / constant.{base}2au)"
+        chk.ob("unit-table", f"au_ratio_dict[{key!r}]", ok, Q, t, want, line=v.lineno,
+               detail=f"Quantity divides by this entry to obtain atomic units, so it must be the number of {key} per atomic unit; the inverse factor or a wrong power of ten converts "
+                      "every energy / temperature / time given in this unit wrongly")
+    # uses of the table: divide on the way in, multiply on the way out
+    ca = src.func(Q, "convert_to_au")
+    r = [unparse(x.value).replace(" ", "") for x in ast.walk(ca.node) if isinstance(x, ast.Return)]
+    chk.ob("unit-table", "convert_to_au divides by the ratio", r == [f"{ca.params()[0]}/au_ratio_dict[{ca.params()[1]}]"], ca.where, r, "num / au_ratio_dict[unit]", line=ca.node.lineno)
+    au = src.func(Q, "Quantity.as_unit")
+    mul = [unparse(x.value).replace(" ", "") for x in ast.walk(au.node) if isinstance(x, ast.Assign)]
+    chk.ob("unit-table", "as_unit multiplies the atomic-unit value by the ratio", mul == [f"self.as_au()*au_ratio_dict[{au.params()[1]}]"], au.where, mul, "self.as_au() * au_ratio_dict[unit]", line=au.node.lineno)
+    tb = src.func(Q, "Quantity.to_beta")
+    rb = [unparse(x.value).replace(" ", "") for x in ast.walk(tb.node) if isinstance(x, ast.Return)]
+    chk.ob("unit-table", "to_beta = 1 / (k_B T in a.u.)", "1.0/self.as_au()" in rb or "1/self.as_au()" in rb, tb.where, rb, "1.0 / self.as_au()", line=tb.node.lineno)
+    # reciprocal pairs of constant.py (symbolic: physical constants are opaque positive symbols)
+    defs = {unparse(n.targets[0]): n.value for n in cm_.body if isinstance(n, ast.Assign) and isinstance(n.targets[0], ast.Name)}
+
+    def sym(e, depth=0):
+        if depth > 8:
+            raise AnalysisError("constant.py: definition too deep")
+        if isinstance(e, ast.Constant) and isinstance(e.value, (int, float)):
+            return sp.nsimplify(e.value, rational=True)
+        if isinstance(e, ast.Name):
+            if e.id in defs:
+                return sym(defs[e.id], depth + 1)
+            raise AnalysisError(f"constant.py: unknown name {e.id}")
+        if isinstance(e, ast.Subscript):
+            return sp.Symbol(re.sub(r"\W+", "_", unparse(e)), positive=True)
+        if isinstance(e, ast.BinOp):
+            a_, b_ = sym(e.left, depth), sym(e.right, depth)
+            return {ast.Mult: a_ * b_, ast.Div: a_ / b_, ast.Add: a_ + b_, ast.Sub: a_ - b_, ast.Pow: a_ ** b_}[type(e.op)]
+        raise AnalysisError(f"constant.py: expression {unparse(e)} outside the folded fragment")
+    pairs = [(a_, b_) for a_ in defs for b_ in defs if re.fullmatch(r"[A-Za-z]+2[A-Za-z]+", a_) and b_ == "2".join(reversed(a_.split("2"))) and a_ < b_]
+    INDEPENDENT = {("K2au", "au2K"): "both taken from scipy's CODATA table (hartree-kelvin and kelvin-hartree relationship)"}
+    for a_, b_ in pairs:
+        if (a_, b_) in INDEPENDENT or (b_, a_) in INDEPENDENT:
+            continue
+        prod = sp.simplify(sym(defs[a_]) * sym(defs[b_]))
+        chk.ob("unit-table", f"constant.{a_} * constant.{b_} == 1", prod == 1, CST, str(prod), "1", line=defs[a_].lineno,
+               detail="a conversion constant and its inverse must be reciprocals by construction")
+    e3 = sp.simplify(sym(defs["cm2ev"]) - sym(defs["cm2au"]) * sym(defs["au2ev"])) if "cm2ev" in defs else None
+    chk.ob("unit-table", "cm2ev = cm2au * au2ev", e3 == 0, CST, str(e3), "0")
+
+
+
+# ------------------------------------------------------------------------------------------ packaged model builders (abstract runs)
+def model_terms_rule(chk, src):
+    from ..syminterp import SymInterp, Sym, Blob
+    MODEL = "renormalizer/model/model.py"
+    # ---- translationally invariant model: every local term once per cell, every non-local term once per cell with cell ids wrapped periodically
+    fi = src.func(MODEL, "TI1DModel.__init__")
+    for ncell in (2, 3, 5):
+        got = {}
+
+        class BS(Sym):
+            def __init__(self, name, dofs, multi):
+                super().__init__(name)
+                self.dofs, self.multi_dof = list(dofs), multi
+
+            def copy(self, new):
+                return ("basis", self._name, tuple(new) if isinstance(new, list) else new)
+        basis = [BS("bE", ["e"], False), BS("bM", ["m1", "m2"], True)]
+        loc = [Sym("L0", symbol="sL0", dofs=["e"], factor="fL0", qn_list="qL0"), Sym("L1", symbol="sL1", dofs=["e", "m1"], factor="fL1", qn_list="qL1")]
+        non = [Sym("N0", symbol="sN0", dofs=[(0, "e"), (1, "e")], factor="fN0", qn_list="qN0"), Sym("N1", symbol="sN1", dofs=[(1, "e"), (3, "m2")], factor="fN1", qn_list="qN1")]
+        it = SymInterp(src, None, {"Op": lambda symbol, dofs, factor=None, qn=None: ("op", symbol, tuple(dofs), factor, qn),
+                                   "super": lambda: Sym("super", __init__=lambda b_, h_, **k: got.update(basis=list(b_), ham=list(h_)))})
+        it.builtins["isinstance"] = lambda x, t: isinstance(x, t) if isinstance(t, type) or (isinstance(t, tuple) and all(isinstance(y, type) for y in t)) else False
+        it.call_function(fi, [Sym("self"), basis, loc, non, ncell])
+        want_b = []
+        for i in range(ncell):
+            want_b += [("basis", "bE", (f"cell{i}", "e")), ("basis", "bM", ((f"cell{i}", "m1"), (f"cell{i}", "m2")))]
+        want_h = []
+        for i in range(ncell):
+            for o in loc:
+                want_h.append(("op", o.symbol, tuple((f"cell{i}", d) for d in o.dofs), o.factor, o.qn_list))
+            for o in non:
+                want_h.append(("op", o.symbol, tuple((f"cell{(i + d[0]) % ncell}", d[1]) for d in o.dofs), o.factor, o.qn_list))
+        ok = got.get("basis") == want_b and sorted(map(repr, got.get("ham", []))) == sorted(map(repr, want_h))
+        chk.ob("model-terms", f"TI1DModel[ncell={ncell}]", ok, fi.where, {"basis": len(got.get("basis", [])), "terms": [repr(t)[:70] for t in got.get("ham", []) if t not in want_h][:3]},
+               {"basis": len(want_b), "terms": "every local term once per cell, every non-local term once per cell, cell index (i + offset) mod ncell"}, line=fi.node.lineno,
+               detail="a translationally invariant periodic model: a missing wrap-around, a skipped cell or a dropped factor / quantum number changes the Hamiltonian only at the boundary cells")
+    # ---- nearest-neighbour coupling matrix
+    fj = src.func(MODEL, "construct_j_matrix")
+
+    class Vec(Sym):
+        def __init__(self, items):
+            super().__init__("vec")
+            self.items = list(items)
+
+        def __mul__(self, o):
+            return Vec([o for _ in self.items])
+
+        __rmul__ = __mul__
+
+    class Mat(Sym):
+        def __init__(self, n, cells=None):
+            super().__init__("mat")
+            self.n, self.cells = n, dict(cells or {})
+
+        def __add__(self, o):
+            c = dict(self.cells)
+            for k_, v_ in o.cells.items():
+                c[k_] = (c[k_] + "+" + v_) if k_ in c else v_
+            return Mat(self.n, c)
+
+        def __setitem__(self, k_, v_):
+            self.cells[(k_[0] % self.n, k_[1] % self.n)] = v_
+
+    def diag(v, k=0):
+        n = len(v.items) + abs(k)
+        return Mat(n, {((i, i + k) if k > 0 else (i - k, i)): x for i, x in enumerate(v.items)})
+    for n in (2, 3, 4, 6):
+        for periodic in (False, True):
+            it = SymInterp(src, None, {"np": Sym("np", ones=lambda k_: Vec([1] * k_), diag=diag)})
+            m = it.call_function(fj, [n, Sym("J", as_au=lambda: "J"), periodic])
+            want = {}
+            for i in range(n - 1):
+                want[(i, i + 1)] = want[(i + 1, i)] = "J"
+            if periodic:
+                want[(n - 1, 0)] = want[(0, n - 1)] = "J"
+            chk.ob("model-terms", f"construct_j_matrix[n={n}, periodic={periodic}]", isinstance(m, Mat) and m.n == n and m.cells == want, fj.where,
+                   {f"{k_}": v_ for k_, v_ in sorted(getattr(m, "cells", {}).items()) if want.get(k_) != v_} or "as expected", "J on |i-j| = 1" + (" and on the two corners" if periodic else ""),
+                   line=fj.node.lineno, detail="nearest-neighbour coupling matrix: symmetric, J on the first off-diagonals, and for a periodic chain on the (0, n-1) / (n-1, 0) corners")
+
+
 def run(chk):
     src = chk.src
     chk.explanation = (
@@ -496,6 +652,10 @@ def run(chk):
     chk.rule("sinedvr-algebra", "BasisSineDVR: branch == (xi + u)^k [d | p^2] expanded over the helper monomials, in written order", 8)
     chk.rule("pauli", "BasisHalfSpin / BasisSimpleElectron literal matrices satisfy Pauli / fermion relations (exact)", 12)
     chk.rule("multi-electron", "BasisMultiElectron(Vac): a^dagger_i a_j sets element [i, j]; a_i a^dagger_j sets [j, i]", 4)
+    chk.rule("model-terms", "abstract run of TI1DModel and construct_j_matrix: term lists / coupling matrix as documented, including the periodic wrap", 10)
+    model_terms_rule(chk, src)
+    chk.rule("unit-table", "unit conversion table of Quantity and the reciprocal constants it is built from", 14)
+    unit_table_rule(chk, src)
     chk.rule("copy-forward", "copy(new_dof) passes every stored __init__ parameter from self.<same attribute> in the matching slot", 9)
 
     # ------------------------------------------------------------ SHO
